@@ -150,6 +150,14 @@ func execA(c caseA) (st stats, err error) {
 		if got := r.Header.Get("x-amz-meta-gen"); got != e.Meta {
 			return fmt.Errorf("%s: version %s of %q carries metadata gen=%q, it was written with %q", where, e.ID, keyNames[k%len(keyNames)], got, e.Meta)
 		}
+		// the same version through HEAD: its own length and metadata
+		h, err := cl.Call("HEAD", path(k), s3c.Q("versionId", e.ID), nil, nil)
+		if err != nil {
+			return fmt.Errorf("SETUP: transport: %v", err)
+		}
+		if h.Status != 200 || h.Header.Get("Content-Length") != fmt.Sprint(len(e.Body)) || h.Header.Get("x-amz-meta-gen") != e.Meta {
+			return fmt.Errorf("%s: HEAD of version %s of %q answers %d with Content-Length %q and gen=%q, GET returns its %d bytes and gen=%q", where, e.ID, keyNames[k%len(keyNames)], h.Status, h.Header.Get("Content-Length"), h.Header.Get("x-amz-meta-gen"), len(e.Body), e.Meta)
+		}
 		return nil
 	}
 	checkCurrent := func(k int, where string) error {
@@ -218,6 +226,21 @@ func execA(c caseA) (st stats, err error) {
 				return nil
 			}
 			return push(k, entry{ID: r.Header.Get("x-amz-version-id"), Body: src[0].Body, Meta: src[0].Meta}, where)
+		case "selfcopy":
+			// a copy of the current version onto its own key with replaced metadata: a write like any other
+			src := stacks[k]
+			if len(src) == 0 || src[0].Marker {
+				return nil
+			}
+			meta := fmt.Sprintf("s%d", o.Seed)
+			r, err := cl.Call("PUT", path(k), nil, []s3c.KV{{K: "x-amz-copy-source", V: b + "/" + keyNames[k]}, {K: "x-amz-metadata-directive", V: "REPLACE"}, {K: "x-amz-meta-gen", V: meta}}, nil)
+			if err != nil {
+				return fmt.Errorf("SETUP: transport: %v", err)
+			}
+			if !r.OK() || strings.Contains(string(r.Body), "<Error>") {
+				return nil
+			}
+			return push(k, entry{ID: r.Header.Get("x-amz-version-id"), Body: src[0].Body, Meta: meta}, where)
 		case "mpu":
 			data := body(o)
 			meta := fmt.Sprintf("m%d", o.Seed)
@@ -467,7 +490,7 @@ func dump(stacks map[int][]entry) string {
 func opGen() *rapid.Generator[op] {
 	return rapid.Custom(func(t *rapid.T) op {
 		var o op
-		o.Kind = rapid.SampledFrom([]string{"put", "put", "put", "copy", "mpu", "delete", "delete", "delver", "delver", "get", "getver", "list", "suspend", "enable"}).Draw(t, "kind")
+		o.Kind = rapid.SampledFrom([]string{"put", "put", "put", "copy", "mpu", "delete", "delete", "delver", "delver", "get", "getver", "getver", "selfcopy", "list", "suspend", "enable"}).Draw(t, "kind")
 		o.Key = rapid.IntRange(0, 2).Draw(t, "key")
 		o.Seed = rapid.Uint64Range(1, 100000).Draw(t, "seed")
 		o.Size = rapid.IntRange(0, 300).Draw(t, "size")
